@@ -28,8 +28,27 @@ Eval vm_compute in (map (fun c => (c, tcp_lines_in bundled_db TReq c, tcp_lines_
                 if x.strip(): cls[int(x)] = (m.group(1), tb)
     return cls
 
-def coq_http_live(lines, limit):
-    """lines (not refuted by a witness) whose abstraction walk has at most `limit` leaves and passes (live_http_w)"""
+def coq_tcp_live1(lines):
+    """lines whose distance-1 certificate (Spec/ReachMinSpec.v live1_cert) evaluates to true"""
+    src = '''From Coq Require Import List NArith Bool.
+From HN Require Import Base.Bytes Model.SigAst Spec.ScanSpec Spec.DbLoadSpec Spec.BundledSpec Spec.ConformSpec Spec.ReachSpec Spec.ReachMinSpec.
+Import ListNotations.
+Definition cand : list N := [%s].
+Definition res (k : tkind) := let tb := tcp_table bundled_db k in
+  flat_map (fun e => let \'(line, (li, si, s)) := e in if existsb (N.eqb line) cand then [(line, 1, live1_cert tb li si s)] else [])
+           (with_lines (sig_lines (tcp_sec k)) tb).
+Eval vm_compute in (res TReq ++ res TResp).
+''' % '; '.join(str(l) for l in lines)
+    d = os.path.join(V, 'build', 'run', 'C13'); os.makedirs(d, exist_ok=True)
+    open(os.path.join(d, 'tcplive1.v'), 'w').write(src)
+    out = subprocess.run(['coqc', '-noglob', '-Q', os.path.join(V, 'coq'), 'HN', 'tcplive1.v'], cwd=d, capture_output=True, text=True).stdout
+    out = re.sub(r'\s+', ' ', out)
+    return {int(m.group(1)): m.group(3) == 'true' for m in re.finditer(r'\(\s*(\d+),\s*(\d+),\s*(true|false)\)', out)}
+
+NSHARD = 12
+
+def coq_http_eval(name, lines, limit, with_live=True):
+    """(line -> (leaves, passes)) for the given lines, one coqc process"""
     src = '''From Coq Require Import List NArith Bool.
 From HN Require Import Base.Bytes Model.SigAst Spec.ScanSpec Spec.InstanceSpec Spec.DbLoadSpec Spec.BundledSpec Spec.ConformSpec Spec.ReachSpec Spec.ReachHttpSpec.
 Import ListNotations.
@@ -39,16 +58,26 @@ Definition res (k : hkind) :=
   flat_map (fun e => let \'(line, (li, si, s)) := e in
      if existsb (N.eqb line) cand then
        let n := count_from k tb sw (filter (substring_b (hs_expsw s)) sw) (hs_horder s) false in
-       [(line, n, if N.leb n %d then live_http_w k tb li si s sw else false)] else [])
+       [(line, n, if N.leb n %d then %s else false)] else [])
      (with_lines (sig_lines (http_sec k)) tb).
 Eval vm_compute in (res HReq ++ res HResp).
-''' % ('; '.join(str(l) for l in lines), limit)
+''' % ('; '.join(str(l) for l in lines), limit, 'live_http_w k tb li si s sw' if with_live else 'false')
     d = os.path.join(V, 'build', 'run', 'C13'); os.makedirs(d, exist_ok=True)
-    open(os.path.join(d, 'httplive.v'), 'w').write(src)
-    out = subprocess.run(['coqc', '-noglob', '-Q', os.path.join(V, 'coq'), 'HN', 'httplive.v'], cwd=d, capture_output=True, text=True).stdout
-    out = re.sub(r'\s+', ' ', out)
-    res = {}
-    for m in re.finditer(r'\(\s*(\d+),\s*(\d+),\s*(true|false)\)', out): res[int(m.group(1))] = (int(m.group(2)), m.group(3) == 'true')
+    open(os.path.join(d, name + '.v'), 'w').write(src)
+    return subprocess.Popen(['coqc', '-noglob', '-Q', os.path.join(V, 'coq'), 'HN', name + '.v'], cwd=d, stdout=subprocess.PIPE, text=True)
+
+def parse_eval(proc):
+    out = re.sub(r'\s+', ' ', proc.communicate()[0])
+    return {int(m.group(1)): (int(m.group(2)), m.group(3) == 'true') for m in re.finditer(r'\(\s*(\d+),\s*(\d+),\s*(true|false)\)', out)}
+
+def coq_http_live(lines, limit):
+    """leaf counts first, then the check itself: big walks each in a process of their own, the small ones together"""
+    counts = parse_eval(coq_http_eval('httpcount', lines, 0, with_live=False))
+    ok = [l for l in lines if counts.get(l, (10**9,))[0] <= limit]
+    big = [l for l in ok if counts[l][0] > 1500]; small = [l for l in ok if counts[l][0] <= 1500]
+    procs = [coq_http_eval('httplive_small', small, limit)] + [coq_http_eval('httplive_%d' % l, [l], limit) for l in big]
+    res = dict(counts)
+    for p in procs: res.update(parse_eval(p))
     return res
 
 def http_sigs():
@@ -132,7 +161,10 @@ def main():
                 cand = (kn, kind, len(c), c)
                 if key not in best or cand[:3] < best[key][:3]: best[key] = cand
     cls = coq_classes()
-    groups = collections.OrderedDict((k, []) for k in ['live_tcp', 'dead_bad_ttl', 'dead_value_window', 'dead_eol_pad', 'undecided_tcp'])
+    cand1 = [line for line in sorted(cls) if cls[line][0] == 'COptZero' and not (best.get(('T', cls[line][1], line)) is not None and best[('T', cls[line][1], line)][0] == 0)]
+    l1 = coq_tcp_live1(cand1)
+    print('distance-1 certificates:', l1)
+    groups = collections.OrderedDict((k, []) for k in ['live_tcp', 'live1_tcp', 'dead_bad_ttl', 'dead_value_window', 'dead_eol_pad', 'undecided_tcp'])
     wit = collections.OrderedDict((k, []) for k in ['bad_ttl', 'value_window', 'eol_pad', 'http_exact', 'http_expsw', 'http_value', 'kv6', 'ex_live', 'ex_http'])
     for line in sorted(cls):
         c, tb = cls[line]; b = best.get(('T', tb, line))
@@ -145,9 +177,10 @@ def main():
         elif c == 'CBadTtl' and unknown: groups['dead_bad_ttl'].append(line); wit['bad_ttl'].append((line, b[3]))
         elif c in ('CValueWindow', 'COptZero', 'CModWindow', 'CMtuWindow', 'CMssWide') and unknown: groups['dead_value_window'].append(line); wit['value_window'].append((line, b[3]))
         elif c in ('CEolPad', 'COddTtl') and b is not None: groups['dead_eol_pad'].append(line); wit['eol_pad'].append((line, b[3]))
+        elif l1.get(line): groups['live1_tcp'].append(line)
         else: groups['undecided_tcp'].append(line)
     cand = [line for line in sorted(hsig) if not (best.get(('H', hsig[line][0], line)) is not None and best[('H', hsig[line][0], line)][0] == 0)]
-    LIMIT = int(os.environ.get('C13_HTTP_LEAVES', '3000'))
+    LIMIT = int(os.environ.get('C13_HTTP_LEAVES', '20000'))
     hl = coq_http_live(cand, LIMIT)
     print('http abstraction:', {l: hl[l] for l in sorted(hl)})
     hgroups = collections.OrderedDict((k, []) for k in ['live_http', 'dead_http_exact', 'dead_http_expsw', 'dead_http_value', 'undecided_http'])
@@ -162,6 +195,10 @@ def main():
         else:
             hgroups['undecided_http'].append(line)
     fmt = lambda l: '[' + '; '.join(str(x) for x in l) + ']'
+    loads = [[0, []] for _ in range(NSHARD)]
+    for line in sorted(hgroups['live_http'], key=lambda l: -hl[l][0]):
+        tgt = min(loads, key=lambda x: x[0]); tgt[0] += hl[line][0] + 50; tgt[1].append(line)
+    shards_txt = '[' + '; '.join(fmt(sorted(x[1])) for x in loads) + ']'
     with open(os.path.join(V, 'coq', 'Spec', 'ReachLists.v'), 'w') as f:
         f.write('''(* C13: the documented status of the bundled signatures, by p0f.fp line (literal data written by
    harness/c13/tools/mk_lists.py; Proofs/ReachBundled.v recomputes the partition from Gen/Bundled.v, checks every
@@ -173,6 +210,8 @@ Open Scope N_scope.
 (* ---- TCP ---- *)
 (* proved reachable: every conforming packet outside the known traffic classes gets an admissible label *)
 Definition live_tcp_lines : list N := %s.
+(* proved reachable at distance 1 (scale `0` written for a layout without `ws`; certificate Spec/ReachMinSpec.v live1_cert) *)
+Definition live1_tcp_lines : list N := %s.
 (* dead, class DeadBadTtl: `NN-` signatures; an observed TTL is never of the form Bad unless it is 0 *)
 Definition dead_bad_ttl_lines : list N := %s.
 (* dead, class DeadValueWindow: a literal window that the extractor re-expresses as mss*k / %%n / mtu*k for some MSS *)
@@ -182,10 +221,14 @@ Definition dead_eol_pad_lines : list N := %s.
 (* neither proved live nor refuted *)
 Definition undecided_tcp_lines : list N := %s.
 Definition dead_tcp_lines : list N := dead_bad_ttl_lines ++ dead_value_window_lines ++ dead_eol_pad_lines.
+(* sizes of (live, live at distance 1, DeadBadTtl, DeadValueWindow, DeadEolPad, undecided); 199 in all *)
+Definition tcp_partition_sizes : nat * nat * nat * nat * nat * nat := (%s)%%nat.
 
 (* ---- HTTP ---- *)
-(* proved reachable by the finite abstraction (Spec/ReachHttpSpec.v; walks of at most C13_HTTP_LEAVES = 3000 leaves) *)
-Definition live_http_lines : list N := %s.
+(* proved reachable by the finite abstraction (Spec/ReachHttpSpec.v; walks of at most C13_HTTP_LEAVES = 20000 leaves), split
+   into the shards that Proofs/ReachHttpShardNN.v evaluate in parallel (balanced by number of leaves) *)
+Definition http_shards : list (list N) := %s.
+Definition live_http_lines : list N := concat http_shards.
 (* dead already for messages that give every literal exactly and the bare token as software string *)
 Definition dead_http_exact_lines : list N := %s.
 (* dead for messages with exact literals whose software string strictly contains the token (Expsw) *)
@@ -194,7 +237,9 @@ Definition dead_http_expsw_lines : list N := %s.
 Definition dead_http_value_lines : list N := %s.
 Definition undecided_http_lines : list N := %s.
 Definition dead_http_lines : list N := dead_http_exact_lines ++ dead_http_expsw_lines ++ dead_http_value_lines.
-''' % tuple(fmt(g) for g in list(groups.values()) + list(hgroups.values())))
+(* sizes of (live, dead exact, dead Expsw, dead ValueEquality, undecided); 99 in all *)
+Definition http_partition_sizes : nat * nat * nat * nat * nat := (%s)%%nat.
+''' % tuple([fmt(g) for g in groups.values()] + [', '.join(str(len(g)) for g in groups.values())] + [shards_txt] + [fmt(g) for k, g in hgroups.items() if k != 'live_http'] + [', '.join(str(len(g)) for g in hgroups.values())]))
     with open(os.path.join(V, 'coq', 'Spec', 'ReachWitness.v'), 'w') as f:
         f.write('''(* C13: one witness per dead signature, as case lines of Extract/EC13.v (found by harness/c13/tools/mk_lists.py with
    the harness generators; Proofs/ReachBundled.v CHECKS each: it conforms to the signature on its line and the
